@@ -292,6 +292,7 @@ pub fn scenarios(thorough: bool) -> Vec<Scenario> {
         json!({"l♭":[y()], "m♭":[x(), z()]}),
     ], if thorough { 4 } else { 3 }, &[Op::Unstage(0)]));
     v.extend(cross_scenarios(thorough));
+    v.extend(combo_scenarios(thorough));
     v
 }
 
